@@ -163,7 +163,7 @@ def replay(path):
 
 def configs(tier):
     out = []
-    hi = 3 if tier == 'quick' else 5
+    hi = 3 if tier == 'quick' else 7
     for N, C in itertools.product(range(1, hi + 1), repeat=2):
         for n_inputs in range(1, N * C + 1):
             out.append(f'N={N} C={C} inputs={n_inputs}')
@@ -184,7 +184,7 @@ def main(argv=None):
         assumptions=['a process started with (input, result_file, n_runs) runs exactly that',
                      'glob returns the input files in one fixed order for all nodes',
                      'precondition: N*C >= #inputs and trials >= tasks of the most loaded input'],
-        bounds=dict(symbolic='trials in [tasks per input, 10^6]', enumerated=f'N, C in 1..{3 if a.tier == "quick" else 5}, '
+        bounds=dict(symbolic='trials in [tasks per input, 10^6]', enumerated=f'N, C in 1..{3 if a.tier == "quick" else 7}, '
                     'inputs in 1..N*C, all job indices 1..N'),
         stubs=['glob, os.makedirs/exists/remove, multiprocessing.Process/cpu_count, print inside panqec.cli'],
         outside=['N or C beyond the bound', 'what a launched task does with (input, result file, n_runs): that a run of n_runs >= 1 '
